@@ -210,10 +210,28 @@ static const int32 NTS[] = {DFNT_UINT8, DFNT_INT16, DFNT_INT32, DFNT_FLOAT32, DF
 #define NT(k) NTS[((k) % 8 + 8) % 8]
 
 /* ---------------------------------------------------------------- canonical dump ------------------------ */
+/* the dump is a set of records (one per stored object / attribute / dimension); a record may be spread over several
+   DL() pieces and ends with a newline; each complete record is reduced to a 32-bit hash */
+static uint32_t dl_hashes[8192];
+static int      dl_n;
+static char     dl_cur[4096];
+static int      dl_len;
+static void dl_add(const char *piece, int n)
+{
+    for (int i = 0; i < n; i++) {
+        if (piece[i] == '\n') {
+            uint32_t h = 2166136261u;
+            for (int k = 0; k < dl_len; k++) { h ^= (uint8_t)dl_cur[k]; h *= 16777619u; }
+            if (dl_n < 8192) dl_hashes[dl_n++] = h;
+            dl_len = 0;
+        }
+        else if (dl_len < (int)sizeof dl_cur) dl_cur[dl_len++] = piece[i];
+    }
+}
 static void dump_file(const char *path, sha_t *S)
 {
     char line[512];
-#define DL(...) do { int n_ = snprintf(line, sizeof line, __VA_ARGS__); sha_add(S, line, (size_t)n_); if (getenv("DRIVE_RO_VERBOSE")) fputs(line, stderr); } while (0)
+#define DL(...) do { int n_ = snprintf(line, sizeof line, __VA_ARGS__); dl_add(line, n_); if (getenv("DRIVE_RO_VERBOSE")) fputs(line, stderr); } while (0)
     static uint8_t buf[1 << 20];
     /* H level: every (tag,ref) and its logical content (special elements read through their access layer) */
     int32 f = Hopen(path, DFACC_READ, 0);
@@ -530,7 +548,7 @@ static int run_op(const char *op)
         if (I(2)) { c.comp.comp_type = I(2) == 1 ? COMP_CODE_RLE : COMP_CODE_DEFLATE; c.comp.cinfo.deflate.level = 6; }
         rc = SDsetchunk(sds[d], c, fl) != FAIL;
     }
-    OP("sdsetexternalfile") { long d = I(1); NEED(SLOT(sds, d, NA)); rc = SDsetexternalfile(sds[d], xname(I(2)), (int32)I(3)) != FAIL; }
+    OP("sdsetexternalfile") { long d = I(1); NEED(SLOT(sds, d, NA)); /* documented no-op when the dataset is external already */ NEED(SDgetexternalinfo(sds[d], 0, NULL, NULL, NULL) <= 0); rc = SDsetexternalfile(sds[d], xname(I(2)), (int32)I(3)) != FAIL; }
     OP("sdsetnbitdataset") { long d = I(1); NEED(SLOT(sds, d, NA)); rc = SDsetnbitdataset(sds[d], 5, 4, 0, 0) != FAIL; }
     OP("sdsetfillmode") { long i = I(1); NEED(SLOT(sd, i, 2)); rc = SDsetfillmode(sd[i], (int)I(2)) != FAIL; }
     OP("sdsetblocksize") { long d = I(1); NEED(SLOT(sds, d, NA)); rc = SDsetblocksize(sds[d], (int32)I(2)) != FAIL; }
@@ -628,10 +646,13 @@ static void run_history(char **lines, long *lnos, long n)
         if (rc == 2) { printf("%ld snapshot", lnos[li]); do_snapshot(); printf("\n"); fflush(stdout); continue; }
         if (rc == 3) { printf("%ld check", lnos[li]); do_check(); printf("\n"); fflush(stdout); continue; }
         if (rc == 4) {
-            sha_t S; char hx[65]; sha_init(&S);
-            w_bytes = w_calls = w_creates = 0;
-            dump_file(fname(I(1)), &S); sha_hex(&S, hx);
-            printf("%ld dump %s w=%ld,%ld,%ld\n", lnos[li], hx, w_bytes, w_calls, w_creates); fflush(stdout); continue;
+            sha_t S; sha_init(&S);
+            w_bytes = w_calls = w_creates = 0; dl_n = 0; dl_len = 0;
+            dump_file(fname(I(1)), &S);
+            long wb2 = w_bytes, wc2 = w_calls, wcr2 = w_creates;
+            printf("%ld dump w=%ld,%ld,%ld n=%d ", lnos[li], wb2, wc2, wcr2, dl_n);
+            for (int k = 0; k < dl_n; k++) printf("%s%08x", k ? "," : "", dl_hashes[k]);
+            printf("\n"); fflush(stdout); continue;
         }
         printf("%ld %s w=%ld,%ld,%ld%s\n", lnos[li], rc == 1 ? "ok" : rc == 0 ? "fail" : "na", wb, wc, wcr, extra);
         fflush(stdout);
